@@ -54,6 +54,10 @@ def body(ck, F, cfg):
     flatten.check(ck, F, "verifier", "R02.2")
     fl = I.flatten_calls
     ck.require(len(fl) == 1 and str(fl[0]["z"].e) == str(REF.Z), "R02.2", "flatten-uses-z", f"flattening must be called once with the challenge z; calls: {[(str(c['z']),) for c in fl]}")
+    # every constraint the circuit states is recorded (unconditionally, unchanged) on both roles
+    from . import C16
+
+    C16.constrain_rules(ck, F, "R02.2")
     verdict_rule(ck, F, "R02.3")
     ck.floor("combined-check segments", len([o for o in ck.obligations if o[0] == "R02.1" and o[2]]), 22)
 
